@@ -175,6 +175,32 @@ def _regex(acc, case):
             acc.fail("seqs_to_regex/same-list-edited-in-place", case, {"regex": fresh_r, "consensus": fresh_c}, {"regex": r2, "consensus": c2}, note="first element replaced by %r" % new0)
             return
         acc.ok()
+    if any(gapped):
+        # pre-aligned input with gaps: the consensus is made of residues only - in column order, a most frequent residue of each
+        # column, where a column that holds gaps may be left out (which gap-rich columns are dropped is not part of the property)
+        acc.cls("consensus-of-gapped-input")
+        c = acc.call(pyrepseq.seqs_to_consensus, seqs, align=False)
+        modes = []
+        for i in range(L):
+            col = [s[i] for s in seqs if s[i] != "-"]
+            best = max(col.count(ch) for ch in set(col))
+            modes.append({ch for ch in set(col) if col.count(ch) == best})
+        okc = (not raised(c)) and isinstance(c, str) and "-" not in c and "." not in c
+        if okc:
+            reach = {0}
+            for i in range(L):
+                nxt = set()
+                for p in reach:
+                    if gapped[i]:
+                        nxt.add(p)
+                    if p < len(c) and c[p] in modes[i]:
+                        nxt.add(p + 1)
+                reach = nxt
+            okc = len(c) in reach
+        if not okc:
+            acc.fail("seqs_to_consensus/gapped-input", case, "most frequent residues %s in column order (gapped columns optional)" % [sorted(m) for m in modes], c)
+            return
+        acc.ok()
     if not any(gapped):
         c = acc.call(pyrepseq.seqs_to_consensus, seqs, align=False)
         if raised(c) or not isinstance(c, str) or len(c) != L:
@@ -212,6 +238,20 @@ def _logo(acc, case):
         acc.fail("seqlogos/count-matrix", case, {str(k): v for k, v in exp.items()}, mat.to_dict())
         return
     acc.ok(("logo", tuple(sorted(exp.items()))), nontrivial=len(set(seqs)) > 1)
+    # drawing options (forwarded to the logo) change the picture, not the returned count matrix
+    import matplotlib.pyplot as plt
+    plt.close("all")
+    for kw in (dict(center_values=True), dict(shade_below=0.5, fade_below=0.5), dict(vpad=0.1, width=0.8)):
+        r2 = acc.call(P.seqlogos, seqs, **kw)
+        acc.cls("logo-drawing-options")
+        if raised(r2) and "center_values" in kw:
+            continue       # logomaker itself refuses to centre an integer matrix whose row means are fractional (third-party; not judged)
+        if raised(r2) or not r2[1].equals(mat):
+            acc.fail("seqlogos/count-matrix-changed-by-drawing-option", case, mat.to_dict(), r2 if raised(r2) else r2[1].to_dict(), note=str(kw))
+            plt.close("all")
+            return
+        plt.close("all")
+    acc.ok()
 
 
 def _rank(acc, case):
